@@ -292,9 +292,7 @@ func writesThroughParam(c *Ctx, f *ssa.Function, k int, depth int, seen map[*ssa
 	seen[f] = true
 	p := f.Params[k]
 	found := false
-	rootIs := func(addr ssa.Value) bool {
-		return derives(addr, func(x ssa.Value) bool { return x == p })
-	}
+	rootIs := func(addr ssa.Value) bool { return addrRootedAt(addr, p) }
 	eachInstr(f, func(i ssa.Instruction) {
 		switch x := i.(type) {
 		case *ssa.Store:
@@ -453,7 +451,7 @@ func runPublish(c *Ctx, ruleS5, ruleS6 string) {
 
 // writesVia: instruction j writes memory rooted at v (store, map update, delete, or a call that does).
 func writesVia(c *Ctx, j ssa.Instruction, v ssa.Value) (string, bool) {
-	rooted := func(addr ssa.Value) bool { return addr == v || derives(addr, func(x ssa.Value) bool { return x == v }) }
+	rooted := func(addr ssa.Value) bool { return addrRootedAt(addr, v) }
 	switch x := j.(type) {
 	case *ssa.Store:
 		if _, isAlloc := x.Addr.(*ssa.Alloc); !isAlloc && rooted(x.Addr) {
